@@ -120,6 +120,9 @@ def Separated : List Seg → Prop
     (∀ w, LangRe re w → '/' ∉ w) ∧ (rest = [] ∨ ∃ cs rest', rest = .const ('/' :: cs) :: rest') ∧
       Separated rest
 
+/-- a segment name without braces or colon (what one writes between `{` and `}`) -/
+def plainName (name : List Char) : Prop := '{' ∉ name ∧ '}' ∉ name ∧ ':' ∉ name
+
 /-- the substring of `path` between two byte offsets (both on character boundaries) -/
 def Substr (path : List Char) (st en : Nat) (w : List Char) : Prop :=
   ∃ a b, path = a ++ w ++ b ∧ st = blen a ∧ en = blen a + blen w
